@@ -80,8 +80,9 @@ class SqlFluffLineageAnalyzer(LineageAnalyzer):
     def _list_specific_statement_segment(self, sql: str):
         try:
             parsed = Linter(config=self._sqlfluff_config).parse_string(sql)
-        except RuntimeError as e:
-            # sqlfluff gives up with internal error instead of violation when it hits recursion limit etc.
+        except Exception as e:
+            # sqlfluff gives up with internal error instead of violation when it hits recursion limit, an unclosed
+            # templater comment, an unknown dialect named by an inline "-- sqlfluff:" directive, etc.
             raise InvalidSyntaxException(
                 f"This SQL statement is unparsable, please check potential syntax error for SQL:\n"
                 f"{sql}\n"
@@ -93,8 +94,11 @@ class SqlFluffLineageAnalyzer(LineageAnalyzer):
             if isinstance(e, (SQLLexError, SQLParseError))
         ]
         if not violations and not parsed.parsed_variants:
-            # nothing is parsed at all, e.g. templater fails on unbalanced "{{" even inside string literal
-            violations = [str(e) for e in parsed.violations]
+            # nothing is parsed at all, e.g. templater fails on unbalanced "{{" even inside string literal,
+            # or an inline "-- sqlfluff:" directive makes sqlfluff skip the text
+            violations = [str(e) for e in parsed.violations] or [
+                "sqlfluff produced no parse tree for this text"
+            ]
         if violations:
             violation_msg = "\n".join(violations)
             raise InvalidSyntaxException(
